@@ -9,6 +9,7 @@ CONSTANTS
   SectorSize = 32
   MaxFaults = 1
   MaxRetry = 1
+  Session = FALSE
   Kinds = {"T2", "T1S", "T1D", "T512"}
   Sizes = {3, 4, 5}
   Pads = {0, 1, 2, 3, 4, 5, 6, 7}
